@@ -48,6 +48,7 @@ fn run_one(cx: &Ctx<'_>, cfg: &NetCfg, ops: &[Op], prefix: &[usize], allow_dev: 
         let t0 = tokio::time::Instant::now();
         let trace0 = world.trace().len();
         let mut hs: Vec<tokio::task::JoinHandle<Result<String, String>>> = Vec::new();
+        let mut ops_run: Vec<Op> = ops.to_vec();
         for op in ops {
             let o = op.clone();
             let (node, peer_tid) = match &o {
@@ -65,6 +66,27 @@ fn run_one(cx: &Ctx<'_>, cfg: &NetCfg, ops: &[Op], prefix: &[usize], allow_dev: 
                 r.map_err(|e| e.to_string())
             }));
         }
+        // background local stores: one store_local per node at every choice point (part of "any mix of ... stores"):
+        // a writer on the node's engine lock is then present whenever another operation sits between two lock sections
+        let bg_key = key_with_prefix(5, cfg.bits, 73);
+        let mut bg_notify: Vec<std::sync::Arc<tokio::sync::Notify>> = Vec::new();
+        let mut bg_tasks = Vec::new();
+        for nd in &net.nodes {
+            let nfy = std::sync::Arc::new(tokio::sync::Notify::new());
+            let (m, n2) = (nd.mgr.clone(), nfy.clone());
+            bg_tasks.push(tokio::spawn(async move {
+                let mut i = 0u8;
+                loop {
+                    n2.notified().await;
+                    i = i.wrapping_add(1);
+                    let _ = m.store_local(bg_key, vec![i; 4]).await;
+                }
+            }));
+            bg_notify.push(nfy);
+        }
+        // operations that can additionally be started at any later choice point (scheduler event)
+        let extra_menu: Vec<Op> = vec![Op::Get { node: 0, key: 1 }, Op::FindNode { node: 0, key: 0 }];
+        let mut extra_started: Vec<bool> = vec![false; extra_menu.len()];
         let mut ch = Chooser::new(prefix);
         ch.allow_drop = allow_dev;
         ch.allow_reorder = allow_dev;
@@ -80,6 +102,9 @@ fn run_one(cx: &Ctx<'_>, cfg: &NetCfg, ops: &[Op], prefix: &[usize], allow_dev: 
         let mut liveness_ok = true;
         let horizon = op_bound() * 4;
         loop {
+            for nfy in &bg_notify {
+                nfy.notify_one();
+            }
             settle().await;
             // note stop() completions
             for i in 0..n {
@@ -106,6 +131,13 @@ fn run_one(cx: &Ctx<'_>, cfg: &NetCfg, ops: &[Op], prefix: &[usize], allow_dev: 
                     }
                 }
             }
+            if allow_events && !all_done {
+                for (k, o) in extra_menu.iter().enumerate() {
+                    if !extra_started[k] {
+                        menu.push((format!("start another operation now: {}", opj(o)), 2, k));
+                    }
+                }
+            }
             let descs: Vec<String> = menu.iter().map(|m| m.0.clone()).collect();
             match ch.next(world, !all_done, &descs) {
                 Action::Deliver(f) => {
@@ -129,6 +161,24 @@ fn run_one(cx: &Ctx<'_>, cfg: &NetCfg, ops: &[Op], prefix: &[usize], allow_dev: 
                         stop_called_at[node] = Some(t0.elapsed());
                         world.note(format!("stop() called on N{node}"));
                         stop_task[node] = Some(tokio::spawn(async move { m.stop().await.map_err(|e| e.to_string()) }));
+                    } else if kind == 2 {
+                        extra_started[node] = true;
+                        let o = extra_menu[node].clone();
+                        world.note(format!("extra operation started: {}", opj(&o)));
+                        let (onode, m) = match &o {
+                            Op::FindNode { node, .. } | Op::Put { node, .. } | Op::Get { node, .. } | Op::Ping { node, .. } => (*node, net.nodes[*node].mgr.clone()),
+                        };
+                        let _ = onode;
+                        hs.push(tokio::spawn(async move {
+                            let r = match o {
+                                Op::FindNode { key, .. } => m.find_node(&keys[key]).await.map(|_| "ok".to_string()),
+                                Op::Put { key, .. } => m.put(keys[key], vec![0xCD; 8]).await.map(|_| "ok".to_string()),
+                                Op::Get { key, .. } => m.get(&keys[key]).await.map(|_| "ok".to_string()),
+                                Op::Ping { .. } => Ok("ok".to_string()),
+                            };
+                            r.map_err(|e| e.to_string())
+                        }));
+                        ops_run.push(extra_menu[node].clone());
                     } else {
                         silenced[node] = true;
                         let h = net.nodes[node].tid_hex.clone();
@@ -190,9 +240,9 @@ fn run_one(cx: &Ctx<'_>, cfg: &NetCfg, ops: &[Op], prefix: &[usize], allow_dev: 
         // liveness
         for (i, h) in hs.iter().enumerate() {
             if !h.is_finished() {
-                let opk = format!("{:?}", ops[i]).split(' ').next().unwrap_or("").to_string();
+                let opk = format!("{:?}", ops_run[i]).split(' ').next().unwrap_or("").to_string();
                 let stopped = stop_called_at.iter().any(|s| s.is_some());
-                cx.run.violation_lazy("C20.live", feats(&[("op", opk), ("shape", if liveness_ok { "unfinished-at-quiescence".into() } else { "unfinished-at-horizon".into() }), ("with_stop", stopped.to_string())]), || (wit(json!({"op": opj(&ops[i]), "virtual_s": t0.elapsed().as_secs()})), format!("operation {:?} did not complete within {} s of virtual time", ops[i], t0.elapsed().as_secs())));
+                cx.run.violation_lazy("C20.live", feats(&[("op", opk), ("shape", if liveness_ok { "unfinished-at-quiescence".into() } else { "unfinished-at-horizon".into() }), ("with_stop", stopped.to_string())]), || (wit(json!({"op": opj(&ops_run[i]), "virtual_s": t0.elapsed().as_secs()})), format!("operation {:?} did not complete within {} s of virtual time", ops_run[i], t0.elapsed().as_secs())));
             }
         }
         for i in 0..n {
@@ -241,6 +291,9 @@ fn run_one(cx: &Ctx<'_>, cfg: &NetCfg, ops: &[Op], prefix: &[usize], allow_dev: 
         for (i, h) in hs.into_iter().enumerate() {
             let o = if h.is_finished() { match h.await { Ok(Ok(_)) => "ok", Ok(Err(_)) => "err", Err(_) => "panic" } } else { h.abort(); "unfinished" };
             obs.push(format!("op{i}:{o}"));
+        }
+        for t in &bg_tasks {
+            t.abort();
         }
         obs.push(format!("t={}", t0.elapsed().as_secs() / 5));
         cx.distinct.outcome(&obs);
